@@ -19,7 +19,7 @@ func init() {
 			Property: "C13",
 			Rule: "M: every line of <=4 (quick) / 5 (thorough, reduced alphabet at 5) items from: text chunks {a, xy, é, 日本, 😀, space, \"a b\"}, \\[ and \\], markers over names {a, b, é1} (open, close by name, close all, self-closing) with property sets covering integer, decimals (1.05, 2.50, 0.007), booleans in any case, bare word, quoted string with spaces and escaped quote, shorthand [a=v], 2-3 properties, trimwhitespace=false, " +
 				"replacement markers select / plural / ordinal / nomarkup (self-closing and closed by name, every ordinal case value, % placeholders, multi-byte replacement text), with nested / overlapping / repeated arrangements by well-formedness-preserving choices; x optional character prefix (ASCII / multi-byte) x optional leading / trailing whitespace (for <=3 items); " +
-				"S: every marker structure of <=8 (quick) / 10 (thorough) markers over {open a, open b, close a, close b, close all}, each followed by a character of text (same-name markers open at the same time: first-in-first-out and last-in-first-out pairings both accepted, but removing the markers of the other name must not change the pairing); the <=3-item lines are also shown through the runner and Line.Attributes compared; " +
+				"S: every marker structure of <=8 (quick) / 11 (thorough) markers over {open a, open b, close a, close b, close all}, each followed by a character of text (same-name markers open at the same time: first-in-first-out and last-in-first-out pairings both accepted, but removing the markers of the other name must not change the pairing); the <=3-item lines are also shown through the runner and Line.Attributes compared; " +
 				"constructive oracle (plain text, per marker name / typed properties / position / length in characters / TextForAttribute); a case is one line; non-trivial = contains at least one marker",
 			StatesMean:  "distinct generated lines; transitions = ParseMarkup calls (plus Next calls for the runner part)",
 			Assumptions: []string{"constructions without a single meaning under the property are not checked: a self-closing marker between whitespace (one following space may be trimmed), a colon outside the prefix, leading whitespace before a prefix", "attributes of replacement markers themselves, attribute order and SourcePosition are not constrained here", "markers left open at the end of the line are C14/C15 material"},
@@ -329,7 +329,7 @@ func runC13(ctx *report.Ctx) {
 
 	// S: marker structures with same-name markers open at once. Every marker is followed by one
 	// character of text, so that all positions are distinct.
-	maxS := report.Pick(ctx, 8, 10)
+	maxS := report.Pick(ctx, 8, 11)
 	part(ctx, "S", -1, func(c *explore.Chooser) {
 		n := 1 + c.Choose(maxS, "nitems")
 		var evs []int // 1 open a 2 open b 3 close a 4 close b 5 close all
